@@ -170,12 +170,16 @@ def who(ctx):
 
 def term(ctx):
     ck, facts = ctx.check, ctx.facts
-    names = ("mem_init_zero_anywhere", "mem_init_anywhere", "init_stack", "init_stack_program_start_impl")
+    names = ("mem_init_zero_anywhere", "mem_init_anywhere", "init_stack", "init_stack_program_start")
     nloops = 0
     I = A.Interp(facts)
     for nme in names:
         try:
-            b = facts.method(AXE, nme)
+            if nme == "init_stack_program_start":
+                from . import C17
+                b = C17.program_start_body(facts)
+            else:
+                b = facts.method(AXE, nme)
         except KeyError as e:
             ck.violation("C10.term", "api=" + nme, str(e))
             continue
